@@ -781,3 +781,63 @@ package p9p
 //@ ensures tstat: typeis(msg, MessageTstat) ==> TICK && err == sStatE(msg.(MessageTstat).Fid, E) && (err == nil ==> typeis(result0, MessageRstat) && result0.(MessageRstat).Stat == sStatD(msg.(MessageTstat).Fid, E))
 //@ ensures twstat: typeis(msg, MessageTwstat) ==> TICK && err == sWStatE(msg.(MessageTwstat).Fid, msg.(MessageTwstat).Stat, E) && (err == nil ==> typeis(result0, MessageRwstat))
 //@ ensures unknown: !typeis(msg, MessageTauth) && !typeis(msg, MessageTattach) && !typeis(msg, MessageTwalk) && !typeis(msg, MessageTopen) && !typeis(msg, MessageTcreate) && !typeis(msg, MessageTread) && !typeis(msg, MessageTwrite) && !typeis(msg, MessageTclunk) && !typeis(msg, MessageTremove) && !typeis(msg, MessageTstat) && !typeis(msg, MessageTwstat) ==> err == ErrUnknownMsg && EP == E
+
+// ---------------------------------------------------------------- serveconn.go (C06 C07 C11)
+//
+// origin(resp)   - the request a reply was produced for (set where the reply is built)
+// dispatched(r)  - request r was handed to a handler goroutine
+// The Handler is the environment: its result is an arbitrary function of the message and of the call's position in the
+// history (hepoch), so "invoked exactly once with the message that was sent" is visible in the reply.
+//@ ghost origin *Fcall
+//@ ghost dispatched bool zero
+//@ ghost hepoch int
+//@ ghost ndispatch int
+//@ pure hMsg(m Message, e int) Message
+//@ pure hErr(m Message, e int) error
+//@ macro HEP = gk(hepoch, 0)
+
+//@ iface Handler.Handle
+//@ modifies alloc, hepoch
+//@ ensures HEP == old(HEP) + 1 && result0 == hMsg(msg, old(HEP)) && err == hErr(msg, old(HEP))
+//@ ensures well_behaved: (err == nil ==> result0 != nil) && (typeis(err, *MessageRerror) ==> err.(*MessageRerror) != nil)
+
+//@ func newErrorFcall
+//@ property C06 C07
+//@ requires err != nil && (typeis(err, *MessageRerror) ==> err.(*MessageRerror) != nil)
+//@ ensures result != nil && fresh(result) && result.Type == Rerror && result.Tag == tag && typeis(result.Message, MessageRerror)
+//@ ensures frame: preserved("p9p.Fcall.Tag") && preserved("p9p.Fcall.Type") && preserved("p9p.Fcall.Message")
+//@ ensures passthrough: typeis(err, MessageRerror) ==> result.Message.(MessageRerror) == err.(MessageRerror)
+//@ ensures text: !typeis(err, MessageRerror) && !typeis(err, *MessageRerror) ==> result.Message.(MessageRerror).Ename == errtext(err)
+
+//@ func (*conn).serve$2
+//@ property C06 C07 C11
+//@ let E = old(HEP)
+//@ requires c != nil && c.handler != nil && c.closed != nil && req != nil && ctx != nil && dispatched(req)
+//@ at "resp = new" set origin(resp) := req
+//@ site completed#1: m.resp != nil && m.request == req && origin(m.resp) == req && m.resp.Tag == req.Tag && HEP == E + 1 && (hErr(req.Message, E) == nil ==> m.resp.Message == hMsg(req.Message, E)) && (hErr(req.Message, E) != nil ==> typeis(m.resp.Message, MessageRerror) && (typeis(hErr(req.Message, E), MessageRerror) ==> m.resp.Message.(MessageRerror) == hErr(req.Message, E).(MessageRerror)) && (!typeis(hErr(req.Message, E), MessageRerror) && !typeis(hErr(req.Message, E), *MessageRerror) ==> m.resp.Message.(MessageRerror).Ename == errtext(hErr(req.Message, E))))
+//@ ensures handled_once: HEP == E + 1
+
+//@ macro INVT = (tags != nil && (forall u Tag :: {has(tags, u)} has(tags, u) ==> tags[u] != nil && allocated(tags[u]) && tags[u].request != nil && allocated(tags[u].request) && allocated(tags[u].cancel) && allocated(key(tags[u].ctx)) && tags[u].request.Tag == u && tags[u].ctx != nil && tags[u].cancel != nil && gk(cancels, tags[u].cancel) == key(tags[u].ctx) && dispatched(tags[u].request)))
+
+//@ func (reqMap).remove
+//@ property C07 C06
+//@ requires INVT
+//@ ensures removed: result == old(has(tags, t)) && !has(tags, t) && (forall u Tag :: {has(tags, u)} u != t ==> has(tags, u) == old(has(tags, u)) && tags[u] == old(tags[u]))
+//@ ensures cancelled: result ==> cancelled(old(tags[t].ctx))
+//@ ensures inv: INVT
+
+//@ func (*conn).serve
+//@ property C06 C07 C11
+//@ requires c != nil && c.ch != nil && c.handler != nil && c.ctx != nil && c.closed != nil
+//@ chan requests: m != nil && !dispatched(m)
+//@ chan completed: m.resp != nil && m.request != nil && origin(m.resp) == m.request && dispatched(m.request) && m.resp.Tag == m.request.Tag
+//@ loop 1 invariant INVT && c.handler != nil && c.ctx != nil && c.closed != nil && c.ch != nil
+//@ site responses#1: m != nil && m.Tag == req.Tag && has(tags, req.Tag) && typeis(m.Message, MessageRerror) && m.Message.(MessageRerror) == ErrDuptag.(MessageRerror)
+//@ site responses#2: m != nil && m.Tag == req.Tag && !has(tags, msg.Oldtag) && (typeis(m.Message, MessageRflush) || (typeis(m.Message, MessageRerror) && m.Message.(MessageRerror) == ErrUnknownTag.(MessageRerror)))
+//@ site responses#3: m != nil && has(tags, m.Tag) && origin(m) == tags[m.Tag].request
+//@ at "tags[req.Tag] = &activeRequest{" assert fresh_tag: !has(tags, req.Tag)
+//@ at "request: req," set dispatched(req) := true
+
+//@ func (*conn).serve$1
+//@ inline
+//@ loop 1 invariant INVT
